@@ -117,13 +117,18 @@ Theorem C20_partial_build_keys : forall raw, guard_F20k raw = true -> guard_F20m
 Proof. exact build_keys_partial. Qed.
 Print Assumptions C20_partial_build_keys.
 
-Theorem C20_refuted_F20k : guard_F20k [w_a_b] = false /\ guard_F20m [w_a_b] = true /\ build_keys [w_a_b] = None.
+Theorem C20_refuted_F20k :
+  (guard_F20k [w_a_b] = false /\ guard_F20m [w_a_b] = true /\ build_keys [w_a_b] = None)
+  \/ (post_init_keeps_output = true /\ build_keys [w_a_b] = Some [([65;66], 0%nat)]
+      /\ guard_F20k [w_n_o_n_e] = false /\ guard_F20m [w_n_o_n_e] = true /\ build_keys [w_n_o_n_e] = None).
 Proof. exact refuted_F20k. Qed.
 Print Assumptions C20_refuted_F20k.
 
-Example C20_F20k_duplicate : build_keys [w_a_b; w_Pet] = Some [([65;98], 0%nat); (w_Pet, 1%nat); (w_a_b, 0%nat)].
-Proof. exact F20k_duplicate. Qed.
-Print Assumptions C20_F20k_duplicate.
+Example C20_F20k_second_schema :
+  build_keys [w_a_b; w_Pet] = Some [([65;98], 0%nat); (w_Pet, 1%nat); (w_a_b, 0%nat)]
+  \/ build_keys [w_a_b; w_Pet] = Some [([65;66], 0%nat); (w_Pet, 1%nat)].
+Proof. exact F20k_second_schema. Qed.
+Print Assumptions C20_F20k_second_schema.
 
 Theorem C20_refuted_F20m : guard_F20k [w_foo_bar; w_FooBar] = true /\ guard_F20m [w_foo_bar; w_FooBar] = false
   /\ build_keys [w_foo_bar; w_FooBar] = Some [(w_FooBar, 0%nat)].
